@@ -4,6 +4,8 @@ package cemi
 
 func init() {
 	verifHarnesses["HarnessC11Helpers"] = HarnessC11Helpers
+	verifHarnesses["HarnessC11Pack"] = HarnessC11Pack
+	verifHarnesses["HarnessC11Unpack"] = HarnessC11Unpack
 }
 
 // HarnessC11Helpers: flag constructors and accessors over their whole 8-bit domains.
@@ -27,5 +29,135 @@ func HarnessC11Helpers(a []int) {
 
 	ap := APCI(nondetU8())
 	verifAssert("C11.groupcmd", ap.IsGroupCommand() == (ap < 3))
+
+	// named flag constants sit where the specification puts them
+	verifAssert("C11.flags", uint8(Control1StdFrame) == 0x80 && uint8(Control1NoRepeat) == 0x20 &&
+		uint8(Control1NoSysBroadcast) == 0x10 && uint8(Control1WantAck) == 0x02 && uint8(Control1HasError) == 0x01 &&
+		uint8(Control2GroupAddr) == 0x80)
 	verifCover("C11.helpers.end")
+}
+
+var c11Codes = [3]uint8{0x11, 0x2E, 0x29}
+
+// HarnessC11Pack: a = {kind 0..2 (req, con, ind), info length, payload length, 0 = data unit / 1 = control unit}.
+// The reference layout is written from the cEMI specification (DESIGN B.2), not from the implementation.
+func HarnessC11Pack(a []int) {
+	kind, infoLen, dataLen, isCtl := a[0], a[1], a[2], a[3]
+	info := nondetBytes(infoLen)
+	c1, c2 := nondetU8(), nondetU8()
+	src, dst := nondetU16(), nondetU16()
+	numbered := nondetBool()
+	seq := nondetU8() & 15
+	if !numbered {
+		seq = 0
+	}
+	ref := []byte{c11Codes[kind], byte(infoLen)}
+	ref = append(ref, info...)
+	ref = append(ref, c1, c2, byte(src>>8), byte(src), byte(dst>>8), byte(dst))
+	var unit TransportUnit
+	var tnum uint8
+	if numbered {
+		tnum = 0x40 | seq<<2
+	}
+	if isCtl == 1 {
+		cmd := nondetU8() & 3
+		unit = &ControlData{Numbered: numbered, SeqNumber: seq, Command: cmd}
+		ref = append(ref, 0, 0x80|tnum|cmd)
+	} else {
+		apci := nondetU8() & 15
+		data := nondetBytes(dataLen)
+		unit = &AppData{Numbered: numbered, SeqNumber: seq, Command: APCI(apci), Data: data}
+		ref = append(ref, byte(dataLen), tnum|apci>>2, (apci&3)<<6|data[0]&0x3F)
+		ref = append(ref, data[1:]...)
+	}
+	ld := LData{Info: Info(info), Control1: ControlField1(c1), Control2: ControlField2(c2),
+		Source: IndividualAddr(src), Destination: dst, Data: unit}
+	var msg Message
+	switch kind {
+	case 0:
+		msg = &LDataReq{ld}
+	case 1:
+		msg = &LDataCon{ld}
+	default:
+		msg = &LDataInd{ld}
+	}
+	buf := make([]byte, Size(msg))
+	Pack(buf, msg)
+	verifAssert("C11.pack.len", len(buf) == len(ref))
+	for i := range ref {
+		verifAssert("C11.pack.byte", buf[i] == ref[i])
+	}
+	verifObserve("b0", buf[0])
+	verifObserve("last", buf[len(buf)-1])
+	verifCover("C11.pack.end")
+}
+
+// HarnessC11Unpack: a as above; every octet of a specification-shaped layout is symbolic.
+func HarnessC11Unpack(a []int) {
+	kind, infoLen, dataLen, isCtl := a[0], a[1], a[2], a[3]
+	info := nondetBytes(infoLen)
+	c1, c2 := nondetU8(), nondetU8()
+	sh, sl, dh, dl := nondetU8(), nondetU8(), nondetU8(), nondetU8()
+	t := nondetU8()
+	buf := []byte{c11Codes[kind], byte(infoLen)}
+	buf = append(buf, info...)
+	buf = append(buf, c1, c2, sh, sl, dh, dl)
+	var ab uint8
+	var rest []byte
+	if isCtl == 1 {
+		t |= 0x80
+		buf = append(buf, 0, t)
+	} else {
+		t &= 0x7F
+		ab = nondetU8()
+		rest = nondetBytes(dataLen - 1)
+		buf = append(buf, byte(dataLen), t, ab)
+		buf = append(buf, rest...)
+	}
+	var msg Message
+	n, err := Unpack(buf, &msg)
+	verifAssert("C11.unpack.accepts", err == nil)
+	verifAssert("C11.unpack.consumed", n == uint(len(buf)))
+	var ld *LData
+	switch m := msg.(type) {
+	case *LDataReq:
+		verifAssert("C11.unpack.code", kind == 0)
+		ld = &m.LData
+	case *LDataCon:
+		verifAssert("C11.unpack.code", kind == 1)
+		ld = &m.LData
+	case *LDataInd:
+		verifAssert("C11.unpack.code", kind == 2)
+		ld = &m.LData
+	default:
+		verifFail("C11.unpack.type")
+		return
+	}
+	verifAssert("C11.unpack.msgcode", uint8(msg.MessageCode()) == c11Codes[kind])
+	verifAssert("C11.unpack.infolen", len(ld.Info) == infoLen)
+	for i := range info {
+		verifAssert("C11.unpack.info", ld.Info[i] == info[i])
+	}
+	verifAssert("C11.unpack.ctrl", uint8(ld.Control1) == c1 && uint8(ld.Control2) == c2)
+	verifAssert("C11.unpack.src", uint16(ld.Source) == uint16(sh)<<8|uint16(sl))
+	verifAssert("C11.unpack.dst", ld.Destination == uint16(dh)<<8|uint16(dl))
+	numbered := t&0x40 != 0
+	seq := (t >> 2) & 15
+	if isCtl == 1 {
+		cd, ok := ld.Data.(*ControlData)
+		verifAssert("C11.unpack.unit", ok)
+		verifAssert("C11.unpack.tpci", cd.Numbered == numbered && cd.SeqNumber == seq && cd.Command == t&3)
+	} else {
+		ad, ok := ld.Data.(*AppData)
+		verifAssert("C11.unpack.unit", ok)
+		verifAssert("C11.unpack.tpci", ad.Numbered == numbered && ad.SeqNumber == seq)
+		verifAssert("C11.unpack.apci", uint8(ad.Command) == (t&3)<<2|ab>>6)
+		verifAssert("C11.unpack.datalen", len(ad.Data) == dataLen)
+		verifAssert("C11.unpack.short", ad.Data[0] == ab&0x3F)
+		for i := range rest {
+			verifAssert("C11.unpack.data", ad.Data[i+1] == rest[i])
+		}
+		verifObserve("apci", uint8(ad.Command))
+	}
+	verifCover("C11.unpack.end")
 }
